@@ -81,7 +81,7 @@ Definition run_acts_of (i : nat) : list act :=
 Definition choices_spc (pc : spc) : list nat :=
   match pc with
   | SOpenA _ => [0; 1; 2; 3]
-  | SOpenSrc _ | SOpenDlq _ => [0; 1]
+  | SOpenSrc _ | SOpenDlq _ | SStatus _ => [0; 1]
   | _ => [0]
   end.
 Definition choices_cpc (pc : cpc) : list nat :=
